@@ -37,7 +37,7 @@ def Heuristic.draw_score : Option Int := do
 * `value` = parameter `value: i32`
 `none` = panic (or out of fuel). -/
 def Heuristic.is_checkmate (value : Int) : Option Bool := do
-  if value > (← chk .i32 ((← Heuristic.win_score) - (← Heuristic.MAX_FULL_MOVES))) then pure true else (do pure (decide (value < (← chk .i32 ((← Heuristic.loss_score) + (← Heuristic.MAX_FULL_MOVES))))))
+  (if value > (← chk .i32 ((← Heuristic.win_score) - (← Heuristic.MAX_FULL_MOVES))) then pure true else (do pure (decide (value < (← chk .i32 ((← Heuristic.loss_score) + (← Heuristic.MAX_FULL_MOVES)))))))
 
 /-- `fn evaluate(&self, bitboard: &Bitboard, zobrist_pawn_hash: ZobristHash, legal_moves_remaining: bool) -> i32` in `trait Heuristic` (engine_core/src/engine/heuristic.rs:22).
 * `evaluate_ongoing` = OPAQUE result of `self.evaluate_ongoing(..)`: i32
